@@ -737,6 +737,17 @@ def _bits_initial_shift(FA):
                 if bi in dom[u] and bi in reach_from(u):
                     if any(u not in reach_from(sx) for sx in F.succ.get(bi, [])):
                         tested = True
+        # a loop over a range whose end is computed from the code's own length stops with the code as well
+        if not tested:
+            for bi, b in enumerate(F.blocks):
+                if bi not in F.reach:
+                    continue
+                for s_ in b['s']:
+                    rv = s_.get('rv')
+                    if rv and rv['k'] == 'agg' and str(rv['kind'].get('adt', '')).startswith('std::ops::Range') and rv['ops']:
+                        end = norm(F.operand_term(rv['ops'][-1]))
+                        if any(isinstance(st, tuple) and st[:1] == ('field',) and st[2] == 'len' and isinstance(st[1], tuple) and st[1] != ('param', 'self') for st in subterms(end)):
+                            tested = True
         if inits:
             per_base[base].append((f, inits))
             guard_of[fn_key(f)] = tested
